@@ -77,8 +77,9 @@ def main():
                 mp = os.path.join(d, "meta.json")
                 pp = os.path.join(d, "patch.diff")
                 if os.path.exists(mp) and os.path.exists(pp):
-                    prop = json.load(open(mp)).get("property")
-                    if not a.props or prop in a.props:
+                    mj = json.load(open(mp))
+                    prop = mj.get("check_prop") or mj.get("property")
+                    if not a.props or prop in a.props or mj.get("property") in a.props:
                         work.append((pp, prop))
     results = []
     bad = 0
